@@ -1,4 +1,5 @@
 import Astria.Ledger.Validators
+import Astria.Ledger.ValCount
 /-
   C14 — Validator set given to CometBFT mirrors the application's and is never empty.
   The mirror (as a map) is proved for every sequence of updates; applicability of the returned
@@ -37,6 +38,34 @@ theorem C14_aspen_migration_preserves (s : State) (pairs markets : List (String 
     `C14_mirror` it equals the stored set). -/
 theorem C14_accepted_batch_mirrors (ups set r : List (String × Nat))
     (h : cometApply set ups = some r) : r = applyValUpdates set ups := cometApply_result ups set r h
+
+/-- **Count = size, never empty — every history, post-Aspen.**  From any state whose validator
+    storage is well formed (distinct keys, stored count = size, not empty), along every sequence
+    of transactions (any signers and bundles; taking effect or failing), ICS20 packets and block
+    ends, the storage stays well formed: in particular the stored count always equals the size of
+    the stored set and the set is never emptied (a removal is refused unless more than one
+    validator remains).  Side condition: room for the validators the history could add (the
+    count saturates at u64::MAX). -/
+theorem C14_count_and_nonempty_history (ops : List Op) (s : State) (hpost : s.postAspen = true)
+    (hinv : ValInv s) (hsmall : s.vals.length + totalActions ops ≤ U64_MAX) :
+    ValInv (run s ops) ∧ (run s ops).postAspen = true :=
+  valinv_history ops s hpost hinv hsmall
+
+/-- The Aspen migration establishes the well-formedness that the theorem above starts from, for
+    any pre-Aspen set with distinct keys that is not empty. -/
+theorem C14_aspen_establishes_count (s : State) (pairs markets : List (String × Nat))
+    (hnd : (s.vals.map (·.1)).Nodup) (hpos : 0 < s.vals.length) :
+    ValInv (aspenUpgrade s pairs markets) ∧ (aspenUpgrade s pairs markets).postAspen = true :=
+  ⟨⟨hnd, rfl, hpos⟩, rfl⟩
+
+/-- Non-vacuity: the harness genesis storage is well formed, and removing two of its three
+    validators in one history is refused at the second removal. -/
+example :
+    let s : State := { postAspen := true, postBlackburn := true, sudo := "s", ibcSudo := "i",
+                       vals := [("va", 10), ("vb", 10)], valCount := 2 }
+    ValInv s ∧
+    (run s [Op.tx ⟨"s", 0, [.valUpdate "va" 0]⟩, Op.tx ⟨"s", 1, [.valUpdate "vb" 0]⟩, Op.endBlock]).vals = [("vb", 10)] := by
+  refine ⟨⟨by decide, rfl, by decide⟩, by decide⟩
 
 /-- OPEN FINDING F7a: "every update batch is one CometBFT can apply" is false of the unchanged
     code — a key added and removed within one block is returned as a removal of a validator
